@@ -27,6 +27,19 @@ NONDETERMINISTIC = ('datetime.datetime.now', 'datetime.datetime.today', 'datetim
                     'builtins.input', 'builtins.id', 'builtins.hash')
 
 
+ONE_SHOT = ('map', 'filter', 'zip', 'iter', 'reversed', 'enumerate')
+
+
+def _one_shot(e):
+    if isinstance(e, ast.GeneratorExp):
+        return True
+    if isinstance(e, ast.Call) and isinstance(e.func, ast.Name) and e.func.id in ONE_SHOT:
+        return True
+    if isinstance(e, ast.Call) and isinstance(e.func, ast.Attribute) and isinstance(e.func.value, ast.Name) and e.func.value.id == 'itertools':
+        return True
+    return False
+
+
 class Site(object):
     def __init__(self, func, node, kind, target, text):
         self.func = func
@@ -82,6 +95,7 @@ class Purity(object):
         self.stats = {'stores': 0, 'fresh_stores': 0, 'calls': 0, 'resolved': 0, 'unresolved': 0, 'external': 0}
         self._assign_cache = {}
         self._operator_calls = {}
+        self._op_depth = 0
         self._prepare()
         self._fixpoint()
 
@@ -279,10 +293,9 @@ class Purity(object):
         _seen = _seen or set()
         if isinstance(e, (ast.Constant, ast.JoinedStr, ast.Lambda, ast.Compare)):
             return True
-        if isinstance(e, (ast.BinOp,)):
-            return True        # arithmetic produces a new object (operands are not returned)
-        if isinstance(e, ast.UnaryOp):
-            return True
+        if isinstance(e, (ast.BinOp, ast.UnaryOp)):
+            # arithmetic produces a new object - unless an operator method of a repository class hands an operand back (`return self`)
+            return all(self.fresh_expr(f, a, _seen) for a in self._operator_aliases(e, f))
         if isinstance(e, ast.BoolOp):
             return all(self.fresh_expr(f, v, _seen) for v in e.values)
         if isinstance(e, ast.IfExp):
@@ -447,6 +460,11 @@ class Purity(object):
             for v in rhs.values:
                 out += self._alias_exprs(v, f)
             return out
+        if isinstance(rhs, (ast.BinOp, ast.UnaryOp)) and f is not None:
+            out = []
+            for a in self._operator_aliases(rhs, f):
+                out += self._alias_exprs(a, f)
+            return out
         if isinstance(rhs, ast.Call) and isinstance(rhs.func, ast.Attribute) and rhs.func.attr in ALIASING_METHODS:
             return self._alias_exprs(rhs.func.value, f)
         if isinstance(rhs, ast.Call) and f is not None:
@@ -465,6 +483,42 @@ class Purity(object):
             return out
         return []
 
+    _BINOPS = {ast.Add: 'add', ast.Sub: 'sub', ast.Mult: 'mul', ast.Div: 'truediv', ast.FloorDiv: 'floordiv', ast.Mod: 'mod', ast.Pow: 'pow',
+               ast.MatMult: 'matmul'}
+    _UNOPS = {ast.USub: '__neg__', ast.UAdd: '__pos__', ast.Invert: '__invert__'}
+
+    def _operator_aliases(self, e, f):
+        """operands of an operator expression that the result may BE: `a + b` runs a.__add__(b) (or b.__radd__(a)); when that method of a
+        repository class can return one of its parameters, the result aliases the operand.  The operand's class is taken from a type guard
+        of the function when there is one, otherwise every class of the scope defining the method is considered."""
+        if self._op_depth > 6:
+            return []
+        self._op_depth += 1
+        try:
+            out = []
+            if isinstance(e, ast.UnaryOp):
+                meth = self._UNOPS.get(type(e.op))
+                pairs = [(meth, e.operand, None)] if meth else []
+            else:
+                nm = self._BINOPS.get(type(e.op))
+                pairs = [('__%s__' % nm, e.left, e.right), ('__r%s__' % nm, e.right, e.left)] if nm else []
+            for meth, recv, other in pairs:
+                cls = self._guard_class(f, recv) if isinstance(recv, ast.Name) else None
+                classes = [cls] if cls is not None else [c for m_ in self.scope for c in m_.classes.values()]
+                for c in classes:
+                    g = c.methods.get(meth)
+                    if g is None:
+                        continue
+                    back = self.returned_params(g)
+                    ps = [p.name for p in g.params]
+                    if ps and ps[0] in back:
+                        out.append(recv)
+                    if other is not None and len(ps) > 1 and ps[1] in back:
+                        out.append(other)
+            return out
+        finally:
+            self._op_depth -= 1
+
     def returned_params(self, g, _seen=None):
         """names of the parameters of g that some return statement may hand back (directly or through local aliases)"""
         _seen = _seen or set()
@@ -479,7 +533,7 @@ class Purity(object):
                 for v in vals:
                     for e in self._alias_exprs(v, g):
                         root, chain, base = root_and_depth(e)
-                        if root in ps and self.name_kind(g, root) == 'param':
+                        if root in ps and self.name_kind(g, root) in ('param', 'self'):
                             out.add(root)
                         elif root is not None and self.name_kind(g, root) == 'local':
                             for kind, nm in self.alias_roots(g, root):
@@ -532,6 +586,13 @@ class Purity(object):
                             for kind, nm in self.alias_roots(f, t.id):
                                 sites.append((n, (kind, nm), t.id + ' (in-place operator)'))
                                 break
+            if isinstance(n, ast.Name) and isinstance(n.ctx, ast.Load) and self.name_kind(f, n.id) == 'global':
+                # a module-level one-shot iterator (map / filter / zip / generator ...): the first use consumes it - hidden state that
+                # makes the second call see an empty sequence
+                src = self._module_binding(f.module, n.id)
+                if src is not None and _one_shot(src):
+                    self.stats['stores'] += 1
+                    sites.append((n, ('global', n.id), '%s = %s  (a one-shot iterator: the first use consumes it)' % (n.id, stmt_text(src)[:60])))
             if isinstance(n, ast.Call) and isinstance(n.func, ast.Attribute) and n.func.attr in MUTATORS:
                 tgt = self.rs.callee(f, n)
                 recv_glob = self.repo.resolve_expr(f, n.func.value, self.rs.locals_of(f))
@@ -568,6 +629,23 @@ class Purity(object):
                         else:
                             self.stats['fresh_stores'] += 1
         return sites
+
+    def _module_binding(self, module, name, _depth=0):
+        """value expression of a module-level name (followed through `from m import name`)"""
+        if _depth > 4:
+            return None
+        b = module.assigns.get(name)
+        if b:
+            return b[-1][0]
+        imp = module.imports.get(name)
+        if imp and imp[0] == 'attr':
+            try:
+                other = self.repo.module(imp[1])
+            except Exception:
+                return None
+            if other is not None:
+                return self._module_binding(other, imp[2], _depth + 1)
+        return None
 
     def _flatten_targets(self, t):
         if isinstance(t, (ast.Tuple, ast.List)):
